@@ -864,6 +864,9 @@ fn gen_c17(rng: &mut Rng, thorough: bool) -> Case {
 fn check_c17(case: &Case, out: &Outcome, h: &Hist, _g: &mut Group) -> Vec<Violation> {
     let mut v = oracle::common(case, out, h);
     v.extend(oracle::sink::sink_rules(case, h));
+    // Which events must reach a sink at all is judged against the connection table (the sink
+    // reference model above only sees the writes that actually happened).
+    v.extend(flow::conservation(case, h));
     v.extend(flow::all_ok(h));
     v
 }
